@@ -29,7 +29,9 @@ def bus_store_reader_default_config_at_max_persist_1(w):
     if w['what'] == 'frame_mismatch':
         return k.get('loaded_via') == 'multi_mp1' and k.get('label_config_is_default') is False
     if w['what'] == 'valid_access_raised':
-        return k.get('multi_mp1_nondefault_config') is True and k.get('phase') in ('normal', 'restored')
+        # (ErrorInitBus is a Bus-construction error, not a parse error: it belongs to the LRU finding below)
+        return (k.get('multi_mp1_nondefault_config') is True and k.get('phase') in ('normal', 'restored')
+                and k.get('exception') != 'ErrorInitBus')
     return False
 
 
